@@ -348,8 +348,8 @@ impl E2Run for Dhcp {
 
     fn budget(&self, tier: &Tier) -> (u64, u64) {
         match tier {
-            Tier::Quick => (6_000, 60),
-            Tier::Thorough => (1_000_000, 3000),
+            Tier::Quick => (150_000, 50),
+            Tier::Thorough => (10_000_000, 3000),
         }
     }
 
@@ -717,8 +717,8 @@ impl Scenario for Gen {
 
     fn budget(&self, tier: &Tier) -> (u64, u64) {
         match tier {
-            Tier::Quick => (200_000, 30),
-            Tier::Thorough => (20_000_000, 1200),
+            Tier::Quick => (1_000_000, 30),
+            Tier::Thorough => (100_000_000, 1200),
         }
     }
 
